@@ -20,14 +20,17 @@ ReqCallableImpliesDone ==
 NoConflictingPair == \A m, n \in Ms : (m # n /\ Done(m) /\ Done(n)) => ~C!Conflict(cfg, m, n)
 ResultMatches == \A m \in Ms : Done(m) => Line[m].out = C!Result(cfg, st, m, Calls)
 AssumeHolds == C!Assume(cfg, st, Calls)
+\* a method that has a second (shadow) caller in the harness is never executed for both callers in one cycle
+ExclusiveOnce == \A m \in Ms : Line[m].both = 0
 @EXTRA@
 ClauseNames == {"CallableMatches", "DoneImpliesReqAndCallable", "ReqCallableImpliesDone",
-                "NoConflictingPair", "ResultMatches", "AssumeHolds"@EXTRANAMES@}
+                "NoConflictingPair", "ResultMatches", "AssumeHolds", "ExclusiveOnce"@EXTRANAMES@}
 Holds(n) == CASE n = "CallableMatches" -> CallableMatches
               [] n = "DoneImpliesReqAndCallable" -> DoneImpliesReqAndCallable
               [] n = "ReqCallableImpliesDone" -> ReqCallableImpliesDone
               [] n = "NoConflictingPair" -> NoConflictingPair
               [] n = "AssumeHolds" -> AssumeHolds
+              [] n = "ExclusiveOnce" -> ExclusiveOnce
               @EXTRACASES@
               [] OTHER -> ResultMatches
 Failing == {n \in ClauseNames : ~Holds(n)}
